@@ -18,6 +18,7 @@ namespace rkcommon {
     template struct IndexShiftedArray3D<float>;
     template struct Array3DAccessor<unsigned char, float>;
     template struct Array3DAccessor<int, unsigned char>;   // a wrapping (non-monotone) conversion
+    template struct Array3DAccessor<float, double>;        // a widening conversion of non-integral cells
     template struct Array3D<int>;
     template struct Array3DRepeater<float>;
     template struct SubBoxArray3D<float>;
@@ -26,7 +27,6 @@ namespace rkcommon {
     template void for_each<rkverif::Visit &>(const vec3i &, const vec3i &, rkverif::Visit &);
     template void for_each<rkverif::Visit &>(const vec3i &, rkverif::Visit &);
     template void for_each<rkverif::Visit &>(const box3i &, rkverif::Visit &);
-    template void for_each<rkverif::Visit>(const vec3i &, const vec3i &, rkverif::Visit &&);
   }  // namespace array3D
 
   template struct multidim_index_sequence<2>;
@@ -42,6 +42,24 @@ size_t rkverif_walk(const rkcommon::index_sequence_3D &s)
   for (auto it = s.begin(); it != s.end(); ++it)
     n += (*it).x;
   return n;
+}
+
+// a caller's own callable handed over as an lvalue, template arguments deduced as in client code: every overload has to invoke
+// that very object (R-C17-4, callable identity)
+void rkverif_visit_lvalue(const rkcommon::math::vec3i &lo,
+                          const rkcommon::math::vec3i &hi,
+                          const rkcommon::math::box3i &b,
+                          rkverif::Visit &v)
+{
+  rkcommon::array3D::for_each(lo, hi, v);
+  rkcommon::array3D::for_each(hi, v);
+  rkcommon::array3D::for_each(b, v);
+}
+
+// ... and a temporary callable (instantiates the loop nest for an rvalue)
+void rkverif_visit_temporary(const rkcommon::math::vec3i &lo, const rkcommon::math::vec3i &hi)
+{
+  rkcommon::array3D::for_each(lo, hi, rkverif::Visit());
 }
 
 // 64-bit products of vec_t (used by total_indices)
